@@ -260,7 +260,8 @@ def convergence(ctx, rule):
     ctx.check(target_ty(d, "de::from_reader") == ["jsontypes::RawSourceMap"] and target_ty(s, "de::from_slice") == ["jsontypes::RawSourceMap"], rule, "decoder", "same-raw-type", "both parse into RawSourceMap")
     du = ctx.body("decoder::decode_data_url")
     calls = [q.shape(du.expr_of_call(t)) for bi, t in du.calls() if t.get("resolved_local")]
-    ctx.check(len(calls) == 1 and calls[0].startswith("decoder::decode_slice("), rule, du.path, "ends-in-decode_slice", "a data URL's payload is decoded with decode_slice", detail=str(calls)[:200])
+    ctx.check(len(calls) == 1 and q.wild("decoder::decode_slice(try(Result::map_err(Encoding::decode(data_encoding::BASE64,*),*)))", calls[0]), rule, du.path, "ends-in-decode_slice",
+              "a data URL's payload - the base64-decoded bytes as they are, not trimmed, re-encoded or filtered - is decoded with decode_slice", detail=str(calls)[:300])
     i1 = ctx.body("detector::is_sourcemap_impl")
     i2 = ctx.body("detector::is_sourcemap_slice_impl")
     ctx.check(target_ty(i1, "de::from_reader") == ["jsontypes::MinimalRawSourceMap"] and target_ty(i2, "de::from_slice") == ["jsontypes::MinimalRawSourceMap"], rule, "detector", "same-minimal-type", "both detection paths parse into MinimalRawSourceMap")
